@@ -48,12 +48,15 @@ type Ev struct {
 	V    *GV           `json:"v,omitempty"`
 	Idx  int           `json:"idx,omitempty"`
 	Data *Res          `json:"data,omitempty"`
+	// create on a struct-typed handler: hand CreateEvent a value of the Type itself (the data then has
+	// exactly the struct's fields) instead of a map[string]interface{}
+	AsType bool `json:"as_type,omitempty"`
 }
 
 type CfgD struct {
 	Pkg  string   `json:"pkg"`  // legacy | resb
 	Type string   `json:"type"` // model | collection
-	Ty   string   `json:"ty"`   // untyped | any | num
+	Ty   string   `json:"ty"`   // untyped | any | num | struct (model: tstruct; collection: []interface{})
 	Def  *Res     `json:"default,omitempty"`
 	Idx  []string `json:"index_on,omitempty"`
 }
@@ -333,9 +336,29 @@ func (r *Res) allNum() bool {
 	return true
 }
 
-// typed converts r to the handler's Go type when it fits, else to the generic value
-func (r *Res) typed(c CfgD) interface{} {
+// tstruct is the struct Type of the "struct" handlers (Coq: TyStruct)
+type tstruct struct {
+	A float64 `json:"a"`
+	B string  `json:"b"`
+}
+
+// exactStruct: the JSON of a tstruct value: exactly a number a and a string b
+func (r *Res) exactStruct() bool {
+	if r.Null || r.isColl() || len(r.Model) != 2 {
+		return false
+	}
+	_, okA := r.Model["a"].(float64)
+	_, okB := r.Model["b"].(string)
+	return okA && okB
+}
+
+// typed converts r to the handler's Go type when it fits, else to the generic value; for the struct
+// Type only when asType is set (otherwise a map[string]interface{} is handed over)
+func (r *Res) typed(c CfgD, asType bool) interface{} {
 	g := r.generic()
+	if c.Ty == "struct" && c.Type == "model" && asType && r.exactStruct() {
+		return tstruct{A: r.Model["a"].(float64), B: r.Model["b"].(string)}
+	}
 	if r.Null || c.Ty != "num" || !r.allNum() || r.isColl() != (c.Type == "collection") {
 		return g
 	}
@@ -353,6 +376,9 @@ func (r *Res) typed(c CfgD) interface{} {
 	return o
 }
 func (r *Res) fits(c CfgD) bool {
+	if c.Ty == "struct" && c.Type == "model" {
+		return r.exactStruct()
+	}
 	return !r.Null && r.isColl() == (c.Type == "collection") && (c.Ty != "num" || r.allNum())
 }
 
@@ -381,6 +407,13 @@ func fieldKey(f string) func(interface{}) []byte {
 		case map[string]float64:
 			if x, ok := m[f]; ok {
 				return num(x)
+			}
+		case tstruct:
+			switch f {
+			case "a":
+				return num(m.A)
+			case "b":
+				return []byte(m.B)
 			}
 		}
 		return nil
@@ -445,6 +478,11 @@ func typeVal(c CfgD) interface{} {
 			return map[string]float64{}
 		}
 		return []float64{}
+	case "struct":
+		if c.Type == "model" {
+			return tstruct{}
+		}
+		return []interface{}{}
 	}
 	return nil
 }
@@ -454,7 +492,7 @@ func (b *batch) register(cr *caseRun, listen bool) {
 	name := strings.TrimPrefix(cr.rname, "test.")
 	var def interface{}
 	if c.Def != nil {
-		def = c.Def.typed(c)
+		def = c.Def.typed(c, true)
 	}
 	tv := typeVal(c)
 	switch c.Pkg {
@@ -860,7 +898,7 @@ func (b *batch) fire(cr *caseRun, e Ev) (panicked bool) {
 		case "remove":
 			r.RemoveEvent(e.Idx)
 		case "create":
-			r.CreateEvent(e.Data.typed(c))
+			r.CreateEvent(e.Data.typed(c, e.AsType))
 		case "delete":
 			r.DeleteEvent()
 		}
@@ -1139,6 +1177,9 @@ func genRes(r *Rng, c CfgD, coll bool) *Res {
 
 // genFitting draws a value of the handler's Type (used for Default, which Go type-checks)
 func genFitting(r *Rng, c CfgD) *Res {
+	if c.Ty == "struct" && c.Type == "model" {
+		return &Res{Model: map[string]interface{}{"a": float64(r.Intn(4)), "b": r.Pick(strPool)}}
+	}
 	for {
 		x := genRes(r, c, c.Type == "collection")
 		if x.fits(c) {
@@ -1151,7 +1192,7 @@ func genCfg(r *Rng, i int) CfgD {
 	c := CfgD{}
 	c.Pkg = []string{"legacy", "resb"}[i%2]
 	c.Type = []string{"model", "collection"}[(i/2)%2]
-	c.Ty = []string{"untyped", "any", "num"}[(i/4)%3]
+	c.Ty = []string{"untyped", "any", "num", "struct"}[(i/4)%4]
 	if r.Chance(45) {
 		c.Def = genFitting(r, c)
 	}
@@ -1168,9 +1209,64 @@ func genCfg(r *Rng, i int) CfgD {
 	return c
 }
 
+// genStructCreate draws create data for a struct-typed model: the Type itself, a map with exactly the
+// struct's fields, a map with an extra property, a map missing a field, a map with a field of another JSON kind
+func genStructCreate(r *Rng, c CfgD) Ev {
+	d := genFitting(r, c)
+	e := Ev{Op: "create", Data: d}
+	switch r.Intn(5) {
+	case 0:
+		e.AsType = true
+	case 1:
+	case 2:
+		d.Model["c"] = genScalar(r, CfgD{Ty: "any"})
+	case 3:
+		delete(d.Model, r.Pick([]string{"a", "b"}))
+	default:
+		if r.Bool() {
+			d.Model["a"] = r.Pick([]string{"x", ""})
+		} else {
+			d.Model["b"] = []interface{}{float64(1), nil, true}[r.Intn(3)]
+		}
+	}
+	return e
+}
+
+// genStructChange: mostly a number for a / a string for b, sometimes anything
+func genStructChange(r *Rng, c CfgD) Ev {
+	e := Ev{Op: "change", Ch: map[string]GV{}}
+	for j, n := 0, 1+r.Intn(2); j < n; j++ {
+		switch x := r.Intn(100); {
+		case x < 40:
+			k := "f"
+			if r.Chance(30) {
+				k = "i"
+			}
+			e.Ch["a"] = GV{K: k, N: r.Intn(4)}
+		case x < 75:
+			e.Ch["b"] = GV{K: "s", S: r.Pick(strPool)}
+		case x < 85:
+			e.Ch[r.Pick(keyPool)] = GV{K: "del"}
+		default:
+			e.Ch[r.Pick(keyPool)] = genGV(r, CfgD{Ty: "any"})
+		}
+	}
+	return e
+}
+
 func genEvent(r *Rng, c CfgD, vi viewInfo) Ev {
 	model := c.Type == "model"
 	k := r.Intn(100)
+	if model && c.Ty == "struct" {
+		switch {
+		case k < 50:
+			return genStructChange(r, c)
+		case k < 78:
+			return genStructCreate(r, c)
+		case k < 96:
+			return Ev{Op: "delete"}
+		}
+	}
 	if model {
 		switch {
 		case k < 62:
@@ -1249,8 +1345,11 @@ func genEvent(r *Rng, c CfgD, vi viewInfo) Ev {
 func evFits(c CfgD, e Ev) bool {
 	switch e.Op {
 	case "change":
-		for _, g := range e.Ch {
+		for k, g := range e.Ch {
 			if c.Ty == "num" && !g.isNum() && g.K != "del" {
+				return false
+			}
+			if c.Ty == "struct" && c.Type == "model" && !((k == "a" && g.isNum()) || (k == "b" && g.K == "s")) {
 				return false
 			}
 		}
@@ -1362,6 +1461,26 @@ func (b *batch) runCase(r *Rng, cr *caseRun) {
 		}
 		if !evFits(c, e) {
 			cr.tags["ill-typed"] = true
+		}
+		if e.Op == "create" && c.Ty == "struct" && c.Type == "model" && e.Data != nil && !e.Data.Null && !e.Data.isColl() {
+			kind := "field-of-other-kind"
+			_, hasA := e.Data.Model["a"]
+			_, hasB := e.Data.Model["b"]
+			switch {
+			case e.AsType && e.Data.exactStruct():
+				kind = "the-type-itself"
+			case e.Data.exactStruct():
+				kind = "map-with-exactly-the-fields"
+			case !hasA || !hasB:
+				kind = "map-missing-a-field"
+			case len(e.Data.Model) > 2:
+				kind = "map-with-extra-property"
+			}
+			ix := "no-index"
+			if c.Idx != nil {
+				ix = "index-set"
+			}
+			cr.kinds["struct-create:"+c.Pkg+"/"+ix+"/"+kind]++
 		}
 		if e.Op == "change" {
 			for k, g := range e.Ch {
@@ -1475,6 +1594,9 @@ func cfgCoq(c CfgD) string {
 	ty := "TyAny"
 	if c.Ty == "num" {
 		ty = "TyNum"
+	}
+	if c.Ty == "struct" {
+		ty = "TyStruct"
 	}
 	idx := "None"
 	if c.Idx != nil {
